@@ -29,7 +29,7 @@ def key_for(tag):
     return hashlib.sha256(("key:" + str(tag)).encode("utf-8")).hexdigest()
 
 
-STORE_KINDS = ["memory", "local", "local_lru", "dbfs"]
+STORE_KINDS = ["memory", "local", "local_lru", "dbfs", "local_linked"]
 
 
 def make_store(kind, root, reopen=False, lru=3, commit_type=None):
@@ -40,6 +40,13 @@ def make_store(kind, root, reopen=False, lru=3, commit_type=None):
     if kind == "memory":
         return MemoryStore()
     if kind == "local":
+        return LocalFileStore(os.path.join(root, "internal"), os.path.join(root, "data"))
+    if kind == "local_linked":
+        # both configured directories are reached through symbolic links that lead to directories at another depth
+        for name, real in (("internal", os.path.join(root, "vol", "deep", "er", "internal_real")), ("data", os.path.join(root, "vol", "data_real"))):
+            os.makedirs(real, exist_ok=True)
+            if not os.path.lexists(os.path.join(root, name)):
+                os.symlink(real, os.path.join(root, name))
         return LocalFileStore(os.path.join(root, "internal"), os.path.join(root, "data"))
     if kind == "local_lru":
         return LRUCacheStore(
